@@ -13,6 +13,8 @@ from common import Report, clist, coq_eval_mismatches, proof_phase, use_repo
 from c07 import ctext
 
 PID = "C19"
+SC = 10 ** 6        # float cells are multiples of 1e-6: the model compares them as integers
+
 IMPORTS = "CallsCases"
 
 
@@ -58,6 +60,12 @@ def build(rng, lazy):
         dt = rng.choice(["i4", "f8", "i2", "f4", "u1"])
         a = (np.arange(int(np.prod(shape))) * rng.choice([1, 3, -2]) + rng.randint(-5, 5)).astype(dt).reshape(shape)
         dims = tuple("%s_d%d" % (name, k) for k in range(rank)) if rng.random() < 0.6 else ()
+        if dims and rank >= 2 and rng.random() < 0.35:
+            # two axes over the same dimension (a covariance-like array): removing one axis must not remove its namesake
+            i1, i2 = sorted(rng.sample(range(rank), 2))
+            dims = tuple(dims[i1] if k == i2 else d for k, d in enumerate(dims))
+            shape = tuple(shape[i1] if k == i2 else e for k, e in enumerate(shape))
+            a = (np.arange(int(np.prod(shape))) * rng.choice([1, 3, -2]) + rng.randint(-5, 5)).astype(dt).reshape(shape)
         ds[name] = BaseType(name, a, dims=dims)
         arrays[name] = (a, dims)
     if not clash:
@@ -71,14 +79,23 @@ def build(rng, lazy):
     cols = [("lon", "X"), ("lat", "Y"), ("depth", "Z"), ("t", None)]
     rng.shuffle(cols)
     n = rng.choice([0, 1, 3, 6]) if not lazy else rng.choice([1, 3, 6])
-    rows = [tuple(rng.randint(0, 6) * 5 for _ in cols) for _ in range(n)]
+    # half of the datasets have float columns with values a few parts in 10^7 away from the interval ends: a closed interval
+    # (a degenerate one above all) keeps a record only if the stored value really lies inside it
+    floaty = rng.random() < 0.5
+
+    def cell():
+        v = rng.randint(0, 6) * 5
+        if floaty:
+            return float(v) + (rng.choice([0, 0, 4e-6, -4e-6]) if v else 0.0)
+        return v
+    rows = [tuple(cell() for _ in cols) for _ in range(n)]
     loc = SequenceType("loc")
     for c, axis in cols:
         loc[c] = BaseType(c, attributes={"axis": axis} if axis else {})
     if lazy:
-        loc.data = IterData([tuple(np.int32(v) for v in r_) for r_ in rows], loc)
+        loc.data = IterData([tuple((np.float64 if floaty else np.int32)(v) for v in r_) for r_ in rows], loc)
     else:
-        loc.data = np.array(rows, dtype=[(c, "i4") for c, _ in cols])
+        loc.data = np.array(rows, dtype=[(c, "f8" if floaty else "i4") for c, _ in cols])
     ds["loc"] = loc
     return ds, arrays, (ga, gd, maps), (cols, rows)
 
@@ -218,7 +235,7 @@ def main():
                     if tuple(var.shape) != want.shape:
                         direct.append({"law": "mean removes exactly that axis from the shape", "request": url,
                                        "got": tuple(var.shape), "want": want.shape})
-                    if dims and len(want_dims) != 1 and tuple(var.dims) != want_dims:
+                    if dims and tuple(var.dims) != want_dims:
                         direct.append({"law": "mean removes exactly that axis from the dimensions", "request": url,
                                        "got": tuple(var.dims), "want": want_dims})
                     drop_cases.append("(%d%%nat, %s, %s)" % (axis, clist(list(dims), ctext), clist(list(want_dims), ctext)))
@@ -282,20 +299,20 @@ def main():
             want_rows = [r_ for r_ in rows if all(b[ax][0] <= r_[axis_of[ax]] <= b[ax][1] for ax in "XYZ")]
             axes_in_col_order = sorted((axis_of[ax], b[ax][0], b[ax][1]) for ax in "XYZ")
             bounds_cases.append("(%s, %s, %s)" % (
-                clist(axes_in_col_order, lambda t: "(%d%%nat, (%d)%%Z, (%d)%%Z)" % t),
-                clist(rows, lambda r_: clist(list(r_), lambda v: "(%d)%%Z" % v)),
-                clist(want_rows, lambda r_: clist(list(r_), lambda v: "(%d)%%Z" % v))))
+                clist(axes_in_col_order, lambda t: "(%d%%nat, (%d)%%Z, (%d)%%Z)" % (t[0], t[1] * SC, t[2] * SC)),
+                clist(rows, lambda r_: clist(list(r_), lambda v: "(%d)%%Z" % round(v * SC))),
+                clist(want_rows, lambda r_: clist(list(r_), lambda v: "(%d)%%Z" % round(v * SC)))))
             try:
                 res = open_dods_url("http://localhost:8001/d.dods?%s%s%s" % (proj, "&" if proj else "", call), application=ssf)
                 seq = res["loc"]
                 names = list(seq.keys())
-                got = [tuple(int(v) for v in rec) for rec in seq.iterdata()]
-                want = [tuple(r_[colnames.index(nm)] for nm in names) for r_ in want_rows]
+                got = [tuple(float(v) for v in rec) for rec in seq.iterdata()]
+                want = [tuple(float(r_[colnames.index(nm)]) for nm in names) for r_ in want_rows]
                 if got != want:
                     direct.append({"law": "bounds(...) keeps exactly the records inside the closed intervals on the X, Y, Z columns",
                                    "request": url, "lazy_sequence": lazy, "columns": cols, "rows": rows, "got": got, "want": want})
             except Exception as e:  # noqa
-                if not (lazy and not want_rows):       # an empty lazy result cannot be described (known findings C04 / C15)
+                if True:
                     direct.append({"law": "bounds(...) is answered", "request": url, "lazy_sequence": lazy, "error": repr(e)[:300]})
 
         # ---- (4) proxies: the id the client builds, and the values against the raw request
